@@ -102,6 +102,49 @@ def _resolve(key, scopes):
     return '{%s}%s' % (d, key) if d else key
 
 
+# ---------------------------------------------------------------- the mapper itself under set / delete sequences
+M_OPS = [("set", "p", "urn:u1"), ("set", "p", "urn:u2"), ("set", "q", "urn:u1"), ("set", "", "urn:u1"), ("set", "", "urn:u2"),
+         ("del", "p", None), ("del", "q", None), ("del", "", None)]
+M_NAMES = ['{urn:u1}a', '{urn:u2}a', '{urn:u3}a', 'a']
+
+
+def pre_mapper(fn, **kw):
+    return all(0 <= v < len(M_OPS) for v in kw.values())
+
+
+def h_mapper(**kw) -> bool:
+    """after any sequence of prefix bindings and deletions, a name mapped to the prefixed form resolves, through the mapper's
+    own current bindings, to the same expanded name (Namespaces in XML 1.0: a prefixed name denotes the namespace its prefix
+    is bound to NOW)"""
+    from xmlschema.namespaces import NamespaceMapper
+    m = NamespaceMapper()
+    for k in range(len(kw)):
+        op, prefix, uri = M_OPS[pick(kw["o%d" % k], len(M_OPS))]
+        if op == "set":
+            m[prefix] = uri
+        elif prefix in m:
+            del m[prefix]
+    bindings = dict(m.items())
+    for name in M_NAMES:
+        if name[0] != '{' and bindings.get(''):
+            continue          # a no-namespace name under a bound default namespace has no prefixed form (cf. the C19 finding)
+        mapped = m.map_qname(name)
+        if mapped.startswith('{'):
+            continue                                   # left in extended form: always unambiguous
+        if ':' in mapped:
+            prefix, local = mapped.split(':', 1)
+            if bindings.get(prefix) is None:
+                return False                           # a prefix that is not bound (any more)
+            back = '{%s}%s' % (bindings[prefix], local)
+        else:
+            back = '{%s}%s' % (bindings[''], mapped) if bindings.get('') else mapped
+        if back != name:
+            return False
+        if m.unmap_qname(mapped) != name:
+            return False
+    return True
+
+
 def _xmlns_of(d):
     out = {}
     if isinstance(d, dict):
@@ -232,6 +275,8 @@ def h_roundtrip(**kw) -> bool:
 
 
 def explain(fn, args):
+    if fn == "h_mapper":
+        return "NamespaceMapper operations %r" % ([M_OPS[args["o%d" % k]] for k in range(len(args))],)
     xml, expected = _build(args)
     conv = CONV[CFG["converter"]]
     data, errors = SCHEMA.decode(xml, validation='lax', converter=conv, xmlns_processing=CFG["mode"])
@@ -273,6 +318,10 @@ def obligations(tier, seed):
                         "config": {"qroot": qroot, "converter": conv, "mode": mode, "ndecl": nd, "nan": 2 if quick else 3, "ncn": 1 if quick else 2},
                         "timeout": 400 if quick else 3000, "twin_timeout": 30,
                         "bound": "3 levels + sibling; %d declaration choices per inner element; 2-3 naming choices" % nd})
+    nops = 3 if quick else 4
+    out.append({"name": "mapper/%d-ops" % nops, "fn": "h_mapper", "pre": "pre_mapper", "args": [["o%d" % k, "int"] for k in range(nops)], "config": {},
+                "timeout": 400 if quick else 2000, "twin_timeout": 30,
+                "bound": "every sequence of %d operations from %r on a NamespaceMapper, names %r" % (nops, M_OPS, M_NAMES)})
     for qroot in (range(len(QROOT)) if not quick else (1,)):
         out.append({"name": "roundtrip-deep/stacked/default/q%d" % qroot, "fn": "h_roundtrip", "pre": "pre_script", "args": args,
                     "config": {"qroot": qroot, "converter": "default", "mode": "stacked", "ndecl": nd, "nan": 1, "ncn": 2, "deepc": True},
